@@ -25,7 +25,7 @@ ASSUMPTIONS = [
 PIECES = ["[C]", "[=O]", "[Branch1]", "[Ring1]", "[epsilon]", "[nop]", ".",
           "[", "]", "[[", "[C", "C]", "..", " ", "\n", "[]", "[.]", "[nop", "x", "[Branch4]", "[C+0]", "[CH10]",
           "[٣C]", "[C@@@]", "[Branch1_1]", "[Expl=Ring1]", "[C@@Hexpl]", "expl]", "_1]", "[²Cexpl]", "[OH3]", "[CH5]", "[CH4]"]
-PIECES2 = ["[CH4]", "[OH2]", "[N]", "[#Branch2]", "[=Ring3]", "[-/Ring1]", "[/C]", "[", "]", "[expl]", "[=expl]", "[Hexpl]", "ch1]",
+PIECES2 = ["{", "}", "[{}]", "[{0}]", "[%s]", "%", "[CH4]", "[OH2]", "[N]", "[#Branch2]", "[=Ring3]", "[-/Ring1]", "[/C]", "[", "]", "[expl]", "[=expl]", "[Hexpl]", "ch1]",
            "ng1]", "[epsilon", "eps", "[\x00]", "[\ud800]", "[C-٣]", "[999999999999999999999C]", "[CH٣]",
            "[C+999999999999999999999]", "\t", "[=]", "[#]", "[/]"]
 ALPH = {"pieces": PIECES, "pieces2": PIECES2}
